@@ -52,7 +52,7 @@ def run(ctx):
             for prior in (False, True):
                 if quick and prior and ci % 2 == 1 and drv == "parfile":
                     continue
-                extra = ["--block-size", "1000"] + (["--no-perms"] if noperms else []) + (["--no-timestamps"] if notimes else []) + (["--ownership"] if own else [])
+                extra = ["--block-size", "1000"] + (["-vv"] if (ci + prior) % 3 == 0 else []) + (["--no-perms"] if noperms else []) + (["--no-timestamps"] if notimes else []) + (["--ownership"] if own else [])
                 part = modes if not quick else modes[(ci * 31) % 7::2]
                 fs = build_tree(rnd, part, prior)
                 sc = SC("meta-%d%d%d-%s-%s" % (noperms, notimes, own, drv, "over" if prior else "fresh"), fs, ["s"], "d", T=True, extra=extra, cls="meta")
